@@ -86,6 +86,9 @@ def _types(names):
     return [m[n] for n in names]
 
 
+RULE = RULE + ' Round 15: names and types interleaved in seeded order inside one skip argument.'
+
+
 def setup():
     serio.setup()
 
